@@ -63,6 +63,10 @@ def run(pid, scen, seed, tier, stats, failing, broken, sh, CACHE, TARGET, infra,
     prefix = os.path.join(rundir, f'{pid}-{tier}-sim-{name}')
     import subprocess
     cmdline = [os.path.join(TARGET, 'debug', 'sim'), name, str(seed), str(n), prefix]
+    # address-space limit (16 GiB; ordinary campaigns stay below 2): code under test that makes executions run away must end in
+    # an allocation failure (reported below as simulator-did-not-finish), not take the machine down
+    if os.path.exists('/usr/bin/prlimit'):
+        cmdline = ['/usr/bin/prlimit', '--as=17179869184'] + cmdline
     try:
         rc, out = sh(cmdline, timeout=7200)
     except subprocess.TimeoutExpired:
